@@ -1,5 +1,7 @@
 import UVerif.Driver.Core
 import UVerif.Model.Posit
+import UVerif.Model.PositConv
+import UVerif.Spec.Ieee
 
 namespace UVerif.Driver
 open UVerif UVerif.Posit
@@ -50,7 +52,100 @@ def roundTag (n es : Nat) (x : Rat) (r : Nat) : String :=
     | some v => if v = x then "exact" else if (if v < 0 then -v else v) < X then "up-not-taken" else "rounded-up"
     | none => "nar"
 
+
+/-- spec for a conversion from a native source with exact value `x?` (none = inf/NaN): NaR, or the Standard's rounding -/
+def convSpec (n es : Nat) (x? : Option Rat) (r : Nat) : Bool × String :=
+  match x? with
+  | none => (isNaR n r, "inf/NaN must become NaR")
+  | some x =>
+    let ok := r < 2 ^ n && nearestB n es x r
+    (ok, if ok then "" else s!"source {showRat x} rounds to {toHex (positRound n es x)}")
+
+def positConvHandler (n es : Nat) (op : String) (args : List String) (rhs : List String) : Except String LineResult := do
+  match op, args, rhs with
+  | "fromf64", [bs], [rs] =>
+    let some b := parseHex bs | throw "bits"
+    let some r := parseHex rs | throw "r"
+    let m := fromSrc n es 52 (classifyIeee 11 52 b)
+    let (ok, why) := convSpec n es (ieeeVal 11 52 b) r
+    return { model := toHex m, specOk := ok, reason := why, tag := "fromf64", trivial := (ieeeVal 11 52 b).isNone }
+  | "fromf32", [bs], [rs] =>
+    let some b := parseHex bs | throw "bits"
+    let some r := parseHex rs | throw "r"
+    let m := fromSrc n es 23 (classifyIeee 8 23 b)
+    let (ok, why) := convSpec n es (ieeeVal 8 23 b) r
+    return { model := toHex m, specOk := ok, reason := why, tag := "fromf32", trivial := (ieeeVal 8 23 b).isNone }
+  | "fromld", [ses, ms], [rs] =>
+    let some se := parseHex ses | throw "se"
+    let some mt := parseHex ms | throw "mant"
+    let some r := parseHex rs | throw "r"
+    let m := fromSrc n es 63 (classifyX87 se mt)
+    let (ok, why) := convSpec n es (x87Val se mt) r
+    return { model := toHex m, specOk := ok, reason := why, tag := "fromld", trivial := (x87Val se mt).isNone }
+  | "fromi", [kind, ws], [rs] =>
+    let some w := parseHex ws | throw "w"
+    let some r := parseHex rs | throw "r"
+    let some (_, seen, truth) := intKind kind w | throw "kind"
+    let some m := fromInt n es kind w | throw "kind"
+    let (ok, why) := convSpec n es (some (truth : Rat)) r
+    let cls := if kind == "ul64" && seen != truth then "value.assign.ulong_ge_2p63" else ""
+    return { model := toHex m, specOk := ok, reason := why, cls := cls, tag := "fromi/" ++ kind }
+  | "todbl", [as], [ds, backs] =>
+    let some a := parseHex as | throw "a"
+    let some d := parseHex ds | throw "d"
+    let some back := parseHex backs | throw "back"
+    let m := toIeee n es 11 52 a
+    let ok := match positVal n es a with
+      | none => ieeeIsNaN 11 52 d
+      | some x => ieeeVal 11 52 d == some x && (x != 0 || d == 0)
+    return { model := s!"{toHex m} {toHex (a % 2 ^ n)}", specOk := ok && back == a % 2 ^ n,
+             reason := "double(p) is not the exact value or does not round-trip", tag := "todbl" }
+  | "tof32", [as], [ds, backs] =>
+    let some a := parseHex as | throw "a"
+    let some d := parseHex ds | throw "d"
+    let some back := parseHex backs | throw "back"
+    let m := toIeee n es 8 23 a
+    let ok := match positVal n es a with
+      | none => ieeeIsNaN 8 23 d
+      | some x => ieeeVal 8 23 d == some x && (x != 0 || d == 0)
+    return { model := s!"{toHex m} {toHex (a % 2 ^ n)}", specOk := ok && back == a % 2 ^ n,
+             reason := "float(p) is not the exact value or does not round-trip", tag := "tof32" }
+  | "told", [as], [ses, ms, backs] =>
+    let some a := parseHex as | throw "a"
+    let some se := parseHex ses | throw "se"
+    let some mt := parseHex ms | throw "mant"
+    let some back := parseHex backs | throw "back"
+    let (mse, mm) := toX87 n es a
+    let ok := match positVal n es a with
+      | none => se % 2 ^ 15 == 2 ^ 15 - 1 && mt % 2 ^ 63 != 0
+      | some x => x87Val se mt == some x
+    return { model := s!"{toHex mse} {toHex mm} {toHex (a % 2 ^ n)}", specOk := ok && back == a % 2 ^ n,
+             reason := "(long double)p is not the exact value or does not round-trip", tag := "told" }
+  | "toi", [kind, as], [rs] =>
+    let some a := parseHex as | throw "a"
+    let some r := parseHex rs | throw "r"
+    let some t := toIntVia n es kind a | throw "NaR has no integer value"
+    let m := if kind == "u32" then ofSigned 32 t else ofSigned 64 t
+    -- spec: exact value truncated toward zero (the harness only emits the line when the value fits the type)
+    let ok := match positVal n es a with
+      | some x => r == ofSigned 64 (truncZ x)
+      | none => false
+    -- known finding D23: the detour through double / long double loses bits when the posit has more
+    -- fraction bits than the native float and the rounded value crosses an integer
+    let fb := fbitsOf n es
+    let cls := if (kind == "i32" || kind == "u32") && fb > 52 then "posit.to_int.via_double_fbits_gt_52"
+               else if (kind == "i64" || kind == "u64") && fb > 63 then "posit.to_int.via_long_double_fbits_gt_63" else ""
+    return { model := toHex m, specOk := ok, reason := "integer cast is not truncation toward zero", cls := cls, tag := "toi/" ++ kind }
+  | _, _, _ => throw s!"unknown op {op}"
+
 def positHandler : Handler := fun lhs rhs => do
+  match lhs with
+  | ns :: ess :: op :: args =>
+    if ["fromf64","fromf32","fromld","fromi","todbl","tof32","told","toi"].contains op then
+      let some n := parseNat ns | throw "nbits"
+      let some es := parseNat ess | throw "es"
+      return ← positConvHandler n es op args rhs
+  | _ => pure ()
   match lhs, rhs with
   | [ns, ess, op, as, bs], [rs] =>
     let some n := parseNat ns | throw "nbits"
